@@ -40,7 +40,7 @@ def main():
             "evidence_file": f"evidence/{pid}.json",
             "replay_cmd_template": f"./check {pid} --replay {{path}}",
             "engine": "pyvc",
-            "level_claimed": {"category": m.get("category", "proof"), "text": m["text"], "design_ref": f"DESIGN.md section 4, {pid}"},
+            "level_claimed": {"category": m.get("category", getattr(mod, "LEVEL", "proof")), "text": m["text"], "design_ref": f"DESIGN.md section 4, {pid}"},
             "level_note": m["note"],
             "technique": m.get("technique", "contract-based deductive verification: VCs generated from the extracted Python AST (pyvc), discharged by z3 / cvc5"),
         })
